@@ -252,6 +252,16 @@ def one_triple(ctx, name, Vc, Mc, Nc, rng):
             mods.append(sm)
             parts.append(ov[i] + t)
         insert = "".join(parts)
+    # own stream: an unresolved base call (any IUPAC code) in the vector's backbone, far from every site: it travels into the
+    # product, which the next level must still accept
+    rd = gen.rng_for("c11-degenerate", name, sv[:24], len(sv))
+    if rd.random() < 0.25:
+        try:
+            sv = sv + sitefree(rd, 9, [enz, nenz]) + rd.choice("RYKMSWBDHVNrn") + sitefree(rd, 9, [enz, nenz])
+            if all(nsites(sv.upper(), e) == 2 for e in {enz, nenz}) or name == "ytk-entry":
+                ctx.count("c11_vectors_with_degenerate_base")
+        except RuntimeError:
+            pass
     wit = dict(triple=name, vector=sv, modules=mods)
     vent = Vc(rec(rot_left(sv, rng.randrange(len(sv))), "vec"))
     try:
